@@ -8,13 +8,26 @@
    program are related up to `st_eq`: equal states except that the footprint lists agree as sets.
 
    EXCLUDED by the hypothesis `swap_safe` (a decidable predicate on the annotated program):
-   (1) an operator `>` or `<=`, both of whose operands are non-constant, where an operand contains a call or system call;
+   (1) an operator `>` or `<=` whose RIGHT operand contains a call or system call (or is a string literal), unless the
+       left operand is a literal-like constant or the node itself folded to a constant;
    (2) a call written as a system call with the number 4294967295 (xcmp reads it as a call of the procedure named "").
-   About (1):  OptimiseExpr swaps the
-   operands of these two operators; XSem evaluates operands left to right and answers OrderDependent only for
-   conflicting footprints, so the swap is meaning-preserving whenever XSem's footprints are sound (Bernstein) -- a
-   fact about XSem that is not proved here.  With both operands call-free, or one of them a literal-like constant,
-   the swap is harmless for elementary reasons, and that is what is proved. *)
+   About (1):  OptimiseExpr swaps the operands of these two operators (l > r becomes r < l); XSem evaluates operands
+   left to right and answers OrderDependent only for conflicting footprints.  Proved: the swap preserves the meaning
+   when one operand is a literal-like constant, when both operands are call-free, and when the right operand is
+   call-free whatever the left one does (calls, system calls, assignments inside procedures ...).  The last case needs
+   that XSem's footprints are sound, for the fragment that matters: every global an evaluation leaves changed is in its
+   recorded write footprint (wsound_all), and a call-free expression yields the same value and footprint from two
+   states that agree on the globals it reads (rsound_all).  With no conflict between the two footprints, the right
+   operand evaluated BEFORE the left one gives what it gives after it.
+   What stays excluded, and why: with a call in the right operand and a left operand that is not a literal, XSem is not
+   symmetric.  When the operand evaluated first leaves the program (exit inside a called procedure), XSem defines the
+   result only if all later operands are literals (XSem.harmless), so `g > f()` with f leaving the program is defined
+   (g is evaluated, then f halts), whereas the swapped `f() < g` is OrderDependent in XSem: the theorem as stated
+   (every defined behaviour of the source is a behaviour of the transformed program) is false for this shape under
+   XSem's conservative rule, although the compiled programs behave the same.  Calls in BOTH operands would in addition
+   need the commutation of two arbitrary non-conflicting evaluations, which is not proved.  A string-literal right operand
+   below a left operand with calls is excluded because a literal that does not fit the pool is an error in XSem only when
+   it is reached. *)
 From Coq Require Import ZArith String List Bool.
 From HexVerif Require Import XAst XSem XConstProp.
 Import ListNotations.
@@ -56,7 +69,14 @@ Definition lit_like (e : aexpr) : bool :=
   match const_of e with Some _ => XSem.harmless (erase (opt_expr e)) | None => false end.
 
 (* the condition under which the operand swap of > and <= is covered *)
-Definition swap_ok (l r : aexpr) : bool := lit_like l || lit_like r || (acall_free l && acall_free r).
+Definition not_str (e : aexpr) : bool := match e with AStr _ => false | _ => true end.
+(* literal-like constant on either side; both operands call-free; or the RIGHT operand call-free (and not a string
+   literal) whatever the left one does.  The mirror image -- left operand call-free and not a literal, right operand with
+   calls -- stays excluded, and has to: XSem answers OrderDependent when the operand evaluated FIRST leaves the program
+   while a later operand is not a literal, so `g > f()` with f leaving the program is defined (g is evaluated, then f
+   halts) whereas `f() < g` is not. *)
+Definition swap_ok (l r : aexpr) : bool :=
+  lit_like l || lit_like r || (acall_free l && acall_free r) || (acall_free r && not_str r).
 Definition is_rw (o : binop) : bool := match o with Ne | Ge | Gr | Le => true | _ => false end.
 Fixpoint swap_safe (e : aexpr) : bool :=
   match e with
